@@ -769,7 +769,10 @@ def strat_model_isotherm():
                 "how": list(how), "direction": direction, "form": form, "temperature_unit": tunit},
             _params(model), st.lists(st.floats(0.0, 1.0), min_size=1, max_size=4),
             st.integers(0, len(tab) - 1), st.floats(0, 1), st.floats(0.05, 25.0), st.floats(10.0, 5000.0),
-            st.tuples(S.p_rep(), st.sampled_from(_L_DIM), S.m_rep(), S.p_rep(), st.sampled_from(_L_DIM), S.m_rep()),
+            # requested loading: dimensional, or fraction / percent (used for the loading_at output only - the
+            # direction the library gets right; the other fraction paths are the open finding KF-C03-1 of property C03)
+            st.tuples(S.p_rep(), st.sampled_from(_L_DIM), S.m_rep(), S.p_rep(),
+                      st.sampled_from(_L_DIM * 2 + [("fraction", None), ("percent", None)] * 8), S.m_rep()),
             # per quantity: 'full' = pass basis/mode and unit, 'native' = request nothing (keep the isotherm's own),
             # 'unit' = pass only the unit (only used when the basis/mode is the native one and has a unit)
             st.tuples(st.sampled_from(["full", "full", "native", "unit"]),
@@ -789,6 +792,12 @@ def check_model_isotherm(desc, ctx):
     pn, ln, mn = (tuple(r) for r in desc["native"])
     pr, lr, mr = (tuple(r) for r in desc["requested"])
     how = list(desc["how"])
+    if lr[1] is None:
+        if direction == "loading_at":
+            how[1] = "full"
+            ctx.label("to_fraction_or_percent")
+        else:
+            lr = ln  # fraction / percent input to pressure_at: not exercised here
     # resolve what is requested for each quantity
     if how[0] == "unit" and not (pr[0] == pn[0] == "absolute"):
         how[0] = "full"
@@ -852,7 +861,7 @@ def check_model_isotherm(desc, ctx):
     if direction == "loading_at":
         arg_req = np.array([p_conv(v, pn, pr) for v in arg_nat])
         tol_in = ru.tol_for(pn, pr)
-        tol_out = ru.tol_for(ln, lr) + ru.tol_for(mn, mr)
+        tol_out = ru.tol_for(ln, lr) + ru.tol_for(mn, mr) + (ru.tol_for(mr) if lr[1] is None else 0.0)
     else:
         arg_req = np.array([l_conv(v, ln, mn, lr, mr) for v in arg_nat])
         tol_in = ru.tol_for(ln, lr) + ru.tol_for(mn, mr)
